@@ -85,6 +85,29 @@ def case_bytes(case):
 
 def run(ctx):
     ob_failed = []
+    # the harness is built and run in a second thread while the proofs are (re)checked
+    import threading
+    hres = {}
+    replay_kind = None
+    if ctx.replay:
+        _rp = json.load(open(ctx.replay))
+        replay_kind = (_rp.get("replay", _rp) or {}).get("kind")
+
+    def _harness():
+        hb_, hlog_ = ctx.build_harness("c08")
+        hres["hb"], hres["hlog"] = hb_, hlog_
+        if hb_ is None or replay_kind == "race":
+            return
+        args = [hb_, "-seed", str(ctx.seed), "-tier", ctx.tier, "-out", ctx.work]
+        if ctx.replay:
+            rp = json.load(open(ctx.replay))
+            inner = os.path.join(ctx.work, "replay_in.json")
+            json.dump(rp.get("replay", rp), open(inner, "w"))
+            args += ["-replay", inner]
+        hres["rc"], hres["out"] = common.sh(args, timeout=1500)
+
+    hthread = threading.Thread(target=_harness)
+    hthread.start()
     ok, msg = ctx.tables(GROUP)
     if not ok:
         ctx.log("tables:", msg)
@@ -135,11 +158,8 @@ def run(ctx):
             ob_failed.append("coqchk did not confirm an axiom-free development: " + coqchk)
         ctx.log("coqchk:", "ok, no axioms" if rc_chk == 0 and "Axioms: <none>" in coqchk else coqchk)
 
-    replay_kind = None
-    if ctx.replay:
-        _rp = json.load(open(ctx.replay))
-        replay_kind = (_rp.get("replay", _rp) or {}).get("kind")
-    hb, hlog = ctx.build_harness("c08")
+    hthread.join()
+    hb, hlog = hres.get("hb"), hres.get("hlog", "")
     meta = {}
     model_bad = []      # (kind, case)
     prop_bad = []       # (kind, verdict, case)
@@ -149,13 +169,7 @@ def run(ctx):
     elif replay_kind == "race":
         meta = {"kinds": []}
     else:
-        args = [hb, "-seed", str(ctx.seed), "-tier", ctx.tier, "-out", ctx.work]
-        if ctx.replay:
-            rp = json.load(open(ctx.replay))
-            inner = os.path.join(ctx.work, "replay_in.json")
-            json.dump(rp.get("replay", rp), open(inner, "w"))
-            args += ["-replay", inner]
-        rc, out = common.sh(args, timeout=1500)
+        rc, out = hres.get("rc", 1), hres.get("out", "")
         if ctx.replay:
             ctx.log(out.strip()[-600:])
         if rc != 0:
@@ -188,8 +202,12 @@ def run(ctx):
         raw = case_bytes(case)
         if kind in ("rcases", "vcases"):
             key = reader_key(v, raw)
+            if case.get("kind") == "reader-history":
+                key += ":after-later-headers-were-read"
         elif kind == "ccases":
             key = CONN_VERDICTS.get(v, "conn-verdict-%d" % v)
+        elif kind == "hcases":
+            key = CONN_VERDICTS.get(v, "conn-verdict-%d" % v) + ":after-later-headers-were-read"
         elif kind == "ecases":
             key = E2E_VERDICTS.get(v, "e2e-verdict-%d" % v)
         else:
@@ -302,11 +320,12 @@ def run(ctx):
         "rule": "reader: v1 lines = families x (good/bad/cross-family address pool)^2 x 2 port pairs + port-shape pool^2 x 4 address pairs "
                 "+ line shapes/truncations/UNKNOWN/length-cap boundaries, v2 structured + truncations + length limits, mutated and random "
                 "streams; each input is run under one Read, byte-by-byte, random and (boundary cases) every single cut, and every outcome "
-                "that differs is emitted; v2 sweep: %s; tokens: net.ParseIP and the port parser on every string of length <= 4 over "
+                "that differs is emitted; histories: %s headers read one after the other / connections held open together, each re-examined "
+                "after the later headers were read; v2 sweep: %s; tokens: net.ParseIP and the port parser on every string of length <= %s over "
                 "{0,1,9,a,g,:,.,-,+} + generated addresses; connections: proxyproto.Conn over net.Pipe and proxyproto.Listener over TCP "
                 "with segmented writes and concurrent RemoteAddr/LocalAddr callers; e2e: the full proxy in a child process. "
                 "non-trivial = observations in which the implementation accepted a header / delivered payload / parsed an address / served a request"
-                % meta.get("v2_sweep_domain"),
+                % (meta.get("history_cases"), meta.get("v2_sweep_domain"), meta.get("token_exhaustive_len")),
         "traces_validated_against_impl": evaluations,
         "segmentations_run": int(meta.get("reader_schedules_run", 0)),
         "outcomes_changed_by_segmentation": int(meta.get("reader_outcomes_changed_by_segmentation", 0)),
@@ -315,7 +334,7 @@ def run(ctx):
         "distribution": {k: meta.get(k) for k in ("reader_accepted", "reader_rejected", "reader_error_classes",
                                                    "reader_input_lengths", "v2_sweep_cases", "v2_sweep_accepted",
                                                    "token_cases", "token_ips_accepted", "conn_cases_tcp", "conn_cases_pipe",
-                                                   "conn_cases_delivering_payload")},
+                                                   "conn_cases_delivering_payload", "history_cases")},
         "e2e": e2e,
         "samples": meta.get("samples"),
     }
